@@ -70,6 +70,19 @@ func (s *Set) OlderSubText() *Source {
 	return &Source{Name: m.Name + "-oldsub.yang", Text: s.layout(text)}
 }
 
+// OlderUserText is a module that imports both the current and the older revision of the module (the latter by its
+// revision-date) and augments the older revision's container: a node whose statement stands in this text lives in
+// the older revision's tree, and from there the prefix of the undated import leads into the other tree of that
+// name. Only in the sets whose older text comes first (nil otherwise).
+func (s *Set) OlderUserText() *Source {
+	m := s.Find(s.Older)
+	if m == nil || m.IsSub || len(m.Revisions) == 0 || !s.OlderFirst {
+		return nil
+	}
+	text := fmt.Sprintf("module %s-olduser {\n  namespace \"urn:%s-olduser\";\n  prefix ou;\n  import %s { prefix pl; }\n  import %s { prefix po; revision-date 2019-05-05; }\n  augment \"/po:older-only\" { leaf from-olduser { type string; } }\n}\n", m.Name, m.Name, m.Name, m.Name)
+	return &Source{Name: m.Name + "-olduser.yang", Text: s.layout(text)}
+}
+
 // OlderText is the text of the older revision (nil if there is none).
 func (s *Set) OlderText() *Source {
 	m := s.Find(s.Older)
@@ -691,6 +704,9 @@ func (s *Set) Texts() []Source {
 		os := s.OlderSubText()
 		if s.OlderFirst {
 			out = append([]Source{*o, *os}, out...)
+			if u := s.OlderUserText(); u != nil {
+				out = append(out, *u)
+			}
 		} else {
 			out = append(out, *os, *o)
 		}
